@@ -28,6 +28,39 @@ open GemVerif RealLike
 @[simp] theorem argsortN_get (I : Arr Nat) (i j : Nat) :
     (argsortN I).get i j = (argsortBy (fun a b => decide (I.get 0 a ≤ I.get 0 b)) I.c).getD j 0 := rfl
 
+@[simp] theorem emptyLikeN_r (I : Arr Nat) : (emptyLikeN I).r = I.r := rfl
+@[simp] theorem emptyLikeN_c (I : Arr Nat) : (emptyLikeN I).c = I.c := rfl
+@[simp] theorem emptyLikeN_ok (I : Arr Nat) : (emptyLikeN I).ok = I.ok := rfl
+
+@[simp] theorem arangeN_r (n : Nat) : (arangeN n).r = 1 := rfl
+@[simp] theorem arangeN_c (n : Nat) : (arangeN n).c = n := rfl
+@[simp] theorem arangeN_ok (n : Nat) : (arangeN n).ok = true := rfl
+@[simp] theorem arangeN_get (n i j : Nat) : (arangeN n).get i j = j := rfl
+
+@[simp] theorem Arr.setAt_r {β : Type} (g : Arr β) (I : Arr Nat) (v : Arr β) : (Arr.setAt g I v).r = 1 := rfl
+@[simp] theorem Arr.setAt_c {β : Type} (g : Arr β) (I : Arr Nat) (v : Arr β) : (Arr.setAt g I v).c = g.c := rfl
+theorem Arr.setAt_ok {β : Type} (g : Arr β) (I : Arr Nat) (v : Arr β) :
+    (Arr.setAt g I v).ok = (g.ok && I.ok && v.ok && g.r == 1 && I.r == 1 && v.r == 1 && v.c == I.c &&
+      (List.range I.c).all fun k => decide (I.get 0 k < g.c)) := rfl
+theorem Arr.setAt_get {β : Type} (g : Arr β) (I : Arr Nat) (v : Arr β) (i j : Nat) :
+    (Arr.setAt g I v).get i j = scatterGet (I.get 0) (v.get 0) (g.get 0 j) j I.c := rfl
+
+/-- a scatter through indices that are pairwise distinct on `0 … m-1`: the position `I k` receives `v k`, whatever it held -/
+theorem scatterGet_of_injOn {β : Type} (I : Nat → Nat) (v : Nat → β) (old : β) :
+    ∀ (m : Nat), (∀ a b, a < m → b < m → I a = I b → a = b) → ∀ k, k < m → scatterGet I v old (I k) m = v k := by
+  intro m
+  induction m with
+  | zero => intro _ k hk; exact absurd hk (Nat.not_lt_zero k)
+  | succ m ih =>
+    intro hinj k hk
+    unfold scatterGet
+    by_cases h : I m = I k
+    · rw [if_pos h, hinj m k (Nat.lt_succ_self m) hk h]
+    · rw [if_neg h]
+      have hkm : k ≠ m := fun e => h (by rw [e])
+      exact ih (fun a b ha hb => hinj a b (Nat.lt_succ_of_lt ha) (Nat.lt_succ_of_lt hb)) k
+        (Nat.lt_of_le_of_ne (Nat.le_of_lt_succ hk) hkm)
+
 @[simp] theorem nthN_cons_zero (A : Arr Nat) (L : List (Arr Nat)) : nthN (A :: L) 0 = A := rfl
 @[simp] theorem nthN_cons_succ (A : Arr Nat) (L : List (Arr Nat)) (i : Nat) : nthN (A :: L) (i + 1) = nthN L i := rfl
 
@@ -45,6 +78,17 @@ variable {α : Type} [RealLike α]
 theorem linspace_get (a b : α) (num i j : Nat) :
     (linspace a b num).get i j =
       if num = 1 then nat j * (b - a) + a else if j + 1 = num then b else nat j * ((b - a) / nat (num - 1)) + a := rfl
+
+@[simp] theorem arangeFrom_r (a b : Nat) : (arangeFrom a b : Arr α).r = 1 := rfl
+@[simp] theorem arangeFrom_c (a b : Nat) : (arangeFrom a b : Arr α).c = b - a := rfl
+@[simp] theorem arangeFrom_ok (a b : Nat) : (arangeFrom a b : Arr α).ok = true := rfl
+theorem arangeFrom_get (a b i j : Nat) :
+    (arangeFrom a b : Arr α).get i j =
+      if j = 0 then nat a else if j = 1 then nat (a + 1) else nat a + nat j * (nat (a + 1) - nat a) := rfl
+
+@[simp] theorem emptyLike_r (v : Arr α) : (emptyLike v).r = v.r := rfl
+@[simp] theorem emptyLike_c (v : Arr α) : (emptyLike v).c = v.c := rfl
+@[simp] theorem emptyLike_ok (v : Arr α) : (emptyLike v).ok = v.ok := rfl
 
 @[simp] theorem argsort1_r (v : Arr α) : (argsort1 v).r = 1 := rfl
 @[simp] theorem argsort1_c (v : Arr α) : (argsort1 v).c = v.c := rfl
